@@ -470,10 +470,18 @@ def spec_on_impl(ctx: Ctx, run: Run, verdict: str) -> None:
     if any(r.fixed or r.hard for r in d.specialized_regions + d.blockages):
         ctx.spec_fail("die_sound:regions-unchanged:flags", case, {}, size)
         return
-    want_f = [geo.rect_dict(r) for r in run.fixed]
-    if [geo.rect_dict(r) for r in d.fixed_regions] != want_f:
-        ctx.spec_fail("die_sound:fixed-unchanged", case, {}, size)
-        return
+    if case.get("fixed_expect") is not None:
+        # expectation from the generated document, not from the Netlist object's flags
+        want_f = [tuple(float(Fr(v)) for v in r) for r in case["fixed_expect"]]
+        got_f = [(float(r.center.x), float(r.center.y), float(r.shape.w), float(r.shape.h)) for r in d.fixed_regions]
+        if want_f != got_f or not all(r.fixed for r in d.fixed_regions):
+            ctx.spec_fail("die_sound:fixed-are-the-fixed-modules", case, {"reported": got_f, "expected": want_f}, size)
+            return
+    else:
+        want_f = [geo.rect_dict(r) for r in run.fixed]
+        if [geo.rect_dict(r) for r in d.fixed_regions] != want_f:
+            ctx.spec_fail("die_sound:fixed-unchanged", case, {}, size)
+            return
     if any(g.region != "_" or g.fixed or g.hard for g in d.ground_regions):
         ctx.spec_fail("die_sound:ground-tag", case, {}, size)
         return
@@ -575,11 +583,20 @@ def make_case(rng, mode: str, max_cells: int, max_regions: int, allow_netlist=Tr
         else:
             regions.append(ent + [rng.choice(TAGS)])
     W, H = xs[-1], ys[-1]
+    hard, soft = [], 0
+    if allow_netlist and rng.random() < 0.3:
+        # movable macros anywhere (also over blockages / regions / sticking out of the die): irrelevant to the die
+        for _ in range(rng.randint(1, 2)):
+            c0, r0 = rng.randrange(nx), rng.randrange(ny)
+            c1, r1 = rng.randint(c0 + 1, nx), rng.randint(r0 + 1, ny)
+            x0, x1, y0, y1 = xs[c0], xs[c1] + (step if rng.random() < 0.3 else 0), ys[r0], ys[r1]
+            hard.append([(x0 + x1) / 2, (y0 + y1) / 2, x1 - x0, y1 - y0])
+        soft = rng.randint(0, 2)
     kind = "valid"
     u = rng.random()
     if u < 0.30 and (regions or fixed):
         kind = mutate(rng, regions, fixed, W, H, step, mode == "Q")
-    return build(rng, mode, fam, shape, kind, W, H, regions, fixed)
+    return build(rng, mode, fam, shape, kind, W, H, regions, fixed, hard=hard, soft=soft)
 
 
 def mutate(rng, regions, fixed, W, H, step, exact_mode=False) -> str:
@@ -605,7 +622,7 @@ def mutate(rng, regions, fixed, W, H, step, exact_mode=False) -> str:
     return how
 
 
-def build(rng, mode, fam, shape, kind, W, H, regions, fixed, pre=None) -> dict:
+def build(rng, mode, fam, shape, kind, W, H, regions, fixed, pre=None, hard=(), soft=0) -> dict:
     def n(x):
         return num_text(x, rng)
 
@@ -624,13 +641,22 @@ def build(rng, mode, fam, shape, kind, W, H, regions, fixed, pre=None) -> dict:
         if ": " not in s:
             doc = s
     netlist = None
-    if fixed:
-        mods = ", ".join(f"F{i}: {{fixed: true, rectangles: [[{', '.join(n(v) for v in r[:4])}]]}}" for i, r in enumerate(fixed))
-        netlist = "Modules: {" + mods + "}\nNets: []\n"
-    # the exact decimal reading of the document
-    ex = exact_from_text(doc, netlist)
+    ftoks = [[n(v) for v in r[:4]] for r in fixed]
+    if fixed or hard or soft:
+        mods = [(f"F{i}: {{fixed: true, rectangles: [[{', '.join(t)}]]}}", t) for i, t in enumerate(ftoks)]
+        # movable macros: hard but NOT fixed — they must not show up among the die's fixed regions
+        mods += [(f"H{i}: {{hard: true, rectangles: [[{', '.join(n(v) for v in r[:4])}]]}}", None) for i, r in enumerate(hard)]
+        mods += [(f"S{i}: {{area: {rng.randint(1, 9)}}}", None) for i in range(soft)]
+        rng.shuffle(mods)
+        ftoks = [t for _, t in mods if t is not None]          # document order
+        netlist = "Modules: {" + ", ".join(m for m, _ in mods) + "}\nNets: []\n"
+    # the exact decimal reading of the document (fixed rectangles: those of the FIXED modules only)
+    ex = exact_from_text(doc, None)
+    fexp = [[str(doc_value(t)) for t in toks] for toks in ftoks]
+    if ex is not None:
+        ex["fixed"] = fexp
     case = {"mode": mode, "doc": doc, "netlist": netlist, "pre": pre, "family": fam, "shape": shape, "kind": kind,
-            "size": len(regions) + len(fixed), "exact": ex}
+            "size": len(regions) + len(fixed), "exact": ex, "fixed_expect": fexp}
     return case
 
 
@@ -866,6 +892,87 @@ def aux_ops(ctx: Ctx, n: int) -> None:
         ctx.count("op:" + op)
 
 
+def pinwheel_case(rng) -> dict:
+    """small integer-lattice die with 2–4 small regions off the axes, not touching the border or each other: free space with
+    interior cells and pinwheel-like arrangements around the obstacles (valid by construction)."""
+    W, H = rng.randint(6, 10), rng.randint(6, 10)
+    k, rs = rng.randint(2, 4), []
+    for _ in range(20):
+        w, h = rng.choice([1, 1, 2]), rng.choice([1, 1, 2])
+        x0, y0 = rng.randint(1, W - 1 - w), rng.randint(1, H - 1 - h)
+        if all(x0 > a + c or a > x0 + w or y0 > b + d or b > y0 + h for (a, b, c, d) in rs):
+            rs.append((x0, y0, w, h))
+        if len(rs) >= k:
+            break
+    ents = [f"[{dec(Fr(2 * x0 + w, 2))}, {dec(Fr(2 * y0 + h, 2))}, {w}, {h}, {rng.choice(['A', 'dsp', chr(39) + '#' + chr(39)])}]"
+            for (x0, y0, w, h) in rs]
+    doc = f"width: {W}\nheight: {H}\nregions: [" + ", ".join(ents) + "]\n"
+    return {"mode": "Q", "doc": doc, "netlist": None, "pre": None, "family": "int", "shape": "pinwheel", "kind": "valid",
+            "size": len(rs), "exact": exact_from_text(doc, None), "fixed_expect": []}
+
+
+def count_all_free(cells) -> int:
+    """number of non-empty index rectangles all of whose cells are free (what `cands_complete` proves the candidate set is)."""
+    nr = len(cells)
+    nc = len(cells[0]) if nr else 0
+    cnt = 0
+    for r0 in range(nr):
+        for c0 in range(nc):
+            cmax = nc
+            for r1 in range(r0, nr):
+                c = c0
+                while c < cmax and not cells[r1][c]:
+                    c += 1
+                cmax = c
+                if cmax == c0:
+                    break
+                cnt += cmax - c0
+    return cnt
+
+
+def light(ctx: Ctx, cases: list[dict]) -> None:
+    """implementation only (no model run): a valid die must be accepted and tiled exactly; if the candidate enumeration is
+    reachable it is compared with the proved characterisation (recorded, not binding: the member is private)."""
+    for case in cases:
+        if len(_TIMEOUTS) >= 3:
+            return
+        size = case["size"]
+        Rectangle.undefine_epsilon()
+        try:
+            with time_limit(20):
+                d = Die(case["doc"])
+        except AssertionError:
+            ctx.spec_fail("die_complete:valid-document-rejected", case, {"impl": "err:Assert"}, size)
+            ctx.case("Q", case["doc"], True)
+            continue
+        except Exception as e:
+            if isinstance(e, TimeoutError):
+                _TIMEOUTS.append(1)
+            ctx.spec_fail("operation-raised", case, {"raised": repr(e)[:300]}, size)
+            continue
+        finally:
+            Rectangle.undefine_epsilon()
+        allr = d.specialized_regions + d.ground_regions + d.blockages + d.fixed_regions
+        tot = sum((Fr(r.shape.w) * Fr(r.shape.h) for r in allr), Fr(0))
+        if tot != Fr(d.width) * Fr(d.height) or len(d.specialized_regions) + len(d.blockages) != size:
+            ctx.spec_fail("die_complete:exact-area", case, {"sum": float(tot)}, size)
+        try:   # optional observation point
+            Rectangle.set_epsilon(min(d.width, d.height) * 10e-12)
+            d._calculate_cell_matrix()
+            want = count_all_free(d._cells)
+            got = len(d._find_all_ground_rectangles())
+            ctx.extra["candidate_sets_compared"] = ctx.extra.get("candidate_sets_compared", 0) + 1
+            if got != want:
+                ctx.extra["candidate_set_differs_from_all_free_rectangles"] = \
+                    ctx.extra.get("candidate_set_differs_from_all_free_rectangles", 0) + 1
+        except Exception:
+            pass
+        finally:
+            Rectangle.undefine_epsilon()
+        ctx.case("Q", case["doc"], True)
+        ctx.count("family:pinwheel")
+
+
 def run(ctx: Ctx) -> None:
     ctx.rule = ("YAML die documents built from a random Hanan grid (1–6 lines per axis quick, 1–10 thorough) whose cells are "
                 "grouped by a random guillotine partition or by randomly scattered disjoint index rectangles (touching regions, "
@@ -893,7 +1000,10 @@ def run(ctx: Ctx) -> None:
         ex = exhaustive_3x3("Q") + exhaustive_3x3("F")
         ctx.extra["exhaustive_3x3_dies"] = len(ex)
         cases += ex
+    pin = [pinwheel_case(rng) for _ in range(ctx.n(1500, 15000))]
+    cases += pin[::15]                       # a sample of them also goes through the model
     process(ctx, cases)
+    light(ctx, pin)
     aux_ops(ctx, ctx.n(150, 3000))
     ctx.assumptions = [
         "exact-arithmetic theorems: the float behaviour of accept/reject is searched (F stream, validity oracle), not proved",
@@ -929,4 +1039,6 @@ def replay(ctx: Ctx, body: dict) -> None:
             if rep and rep[0] != impl:
                 ctx.disagree("gather", inp, impl, rep[0], 1)
         return
+    if inp.get("shape") == "pinwheel":
+        light(ctx, [inp])
     process(ctx, [inp])
